@@ -6,6 +6,15 @@ ALL = ["C%02d" % i for i in range(1, 21)]
 
 # id -> (level, technique, level text, level note, design ref)
 CHECKS = {
+ "C03": ("exploration", "bounded exhaustive mutation-sequence enumeration on the real KeyedStateStore over a real dkv.DB (background work held or quiescent as an enumerated action) vs a shadow map",
+         "every sequence of put/delete mutations up to depth 4-5 over prefix-related subject keys, namespaces and entry keys incl. empty ones, tiny DKV thresholds; GetState of every subject key after every mutation equals the shadow map[subject][namespace][entry]; no foreign, duplicated or resurrected entries",
+         "store tier only so far (the operator path with batching is added with the scheduler-driven operator harness); namespaces < 256 bytes", "DESIGN.md §5 C03"),
+ "C05": ("exploration", "exhaustive enumeration of configurations (key-group counts x operator counts) and of a stated key set on the real KeySpace / OperatorPartition / KeyedStateStore / TimerStore vs an independent MurmurHash3-32 reference",
+         "every g<=256 x every n<=g+3 (thorough: g<=2048 x 16 characteristic n and 160 large g up to 65535): ranges contiguous, disjoint, covering, balanced; RangeIndex and partition ownership agree with the range table; KeyGroup = reference murmur3 mod g for every key of length <=2 and 29k longer keys; persisted prefixes of state and timer entries equal it",
+         "'every key' and 'every g with every n' are bounded as stated; reference anchored by published test vectors", "DESIGN.md §5 C05"),
+ "C06": ("exploration", "exhaustive enumeration of configurations and orders on the real AssignRanges vs range intersection",
+         "(a) every g<=9 (thorough 12), M,N<=g+2 and every recorded order of the old checkpoints (all permutations for M<=5): each new operator is handed exactly the old checkpoints whose range intersects its own. (b) end-to-end restore through real operators is being added",
+         "assignment tier only so far", "DESIGN.md §5 C06"),
  "C07": ("exploration", "bounded exhaustive history enumeration on the real dkv.DB (background flush/compaction held or quiescent as an enumerated action) vs a map",
          "every put/delete history up to depth 5-6 over colliding keys under ten tiny option sets; background work completed or held back at every step; Get of every key and ScanPrefix of every prefix after every write, compared with a map",
          "single writer; background interleavings finer than hold/release are the schedule tier's subject (not yet built); MemoryFilesystem", "DESIGN.md §5 C07"),
